@@ -19,7 +19,7 @@ IsEvent(e) == l <= Len(Trace) /\ Trace[l].ev = e /\ l' = l + 1 /\ Mark(l)
 With(f, k, v) == [x \in DOMAIN f \cup {k} |-> IF x = k THEN v ELSE f[x]]
 
 Seg == IsEvent("seg") /\ plan' = <<>> /\ tok' = <<>> /\ tcSent' = {} /\ Rest
-ExBegin == IsEvent("ex.begin") /\ plan' = With(plan, Trace[l].ex, [udp |-> Trace[l].udp, tcp |-> Trace[l].tcp, short |-> Trace[l].short])
+ExBegin == IsEvent("ex.begin") /\ plan' = With(plan, Trace[l].ex, [udp |-> Trace[l].udp, tcp |-> Trace[l].tcp, short |-> Trace[l].short, id |-> Trace[l].id])
            /\ UNCHANGED <<tok, tcSent>> /\ Rest
 
 SrvRecv == /\ IsEvent("srv.recv")
@@ -43,6 +43,9 @@ ExEnd == /\ IsEvent("ex.end")
                 p == plan[ev.ex]
                 cls == Class(ev)
             IN Report(l, (IF cls = "udp-reply" /\ tok[ev.tok].tc THEN {"Inv_C16_NeverTruncated"} ELSE {})
+                      \* C05 on the UDP upstream: a returned message is a reply the server sent for this exchange,
+                      \* with this exchange's question and the caller's ID
+                      \cup (IF ev.kind = "reply" /\ (cls = "foreign-reply" \/ ev.rq # ev.ex \/ ev.id # p.id) THEN {"Inv_C05_Match"} ELSE {})
                       \* with a deadline around the reply time the caller may legitimately get an error instead
                       \cup (IF cls = F!Result(p.udp, p.tcp) \/ (p.short /\ cls = "error") THEN {} ELSE {"Inv_C16_Outcome"}))
          /\ UNCHANGED <<plan, tok, tcSent>> /\ Rest
